@@ -320,7 +320,7 @@ def part_pattern_sequences(res, rng, n):
         history = [start]
         backups = []
         for k in range(rng.randint(1, 6)):
-            op = rng.choice(("assign", "assign-long", "clear", "cell", "bulk", "read", "read-data", "backup"))
+            op = rng.choice(("assign", "assign-long", "clear", "cell", "bulk", "read", "read-data", "backup", "reshape-clear"))
             history.append(op)
             if op == "assign":
                 model = image(tracks, lines)
@@ -332,6 +332,16 @@ def part_pattern_sequences(res, rng, n):
                 # part of the pattern (now or later)
                 model = image(tracks, lines)
                 pat.raw_data = b"".join(model) + b"".join(rcell() for _ in range(rng.randint(1, 4)))
+            elif op == "reshape-clear":
+                # the pattern gets another size and is cleared (the documented way to rebuild the grid for the new size)
+                tracks, lines = rng.randint(1, 6), rng.randint(1, 8)
+                ncell = tracks * lines
+                if rng.random() < 0.5:
+                    pat.tracks, pat.lines = tracks, lines
+                else:
+                    pat.lines, pat.tracks = lines, tracks
+                pat.clear()
+                model = [bytes(8)] * ncell
             elif op == "clear":
                 pat.clear()
                 model = [bytes(8)] * ncell
